@@ -90,7 +90,7 @@ func cmdCheck(args []string) int {
 	}
 	seed, _ := strconv.Atoi(os.Getenv("VERIF_SEED"))
 	t0 := time.Now()
-	jobs := p.Jobs(tier)
+	jobs := jobsFor(p, tier)
 	names := map[string]bool{}
 	for _, j := range jobs {
 		if names[j.Name] {
